@@ -65,6 +65,7 @@ type Opts struct {
 	NoOrderFuncs bool     // exclude keys() and randomInt() (equality oracles)
 	Directives   []string // extra directives that may appear in chains, e.g. "|vfail"
 	Funcs        []string // extra functions taking one argument and returning it
+	ListFuncs    []string // extra functions taking (list, value) and returning a list
 	Globals      bool
 	IJ           bool
 	DropRequired float64 // probability that a call omits a required param (a compile error that prints the call)
@@ -277,6 +278,9 @@ func (x *g) expr(t ty, d int) string {
 	case tListInt:
 		if l := x.vars(tListInt); len(l) > 0 && x.chance(0.6) {
 			return x.use(l[x.pick(len(l))])
+		}
+		if len(x.o.ListFuncs) > 0 && d > 0 && x.chance(0.3) {
+			return x.o.ListFuncs[x.pick(len(x.o.ListFuncs))] + "(" + x.expr(tListInt, d-1) + ", " + fmt.Sprint(x.pick(9)) + ")"
 		}
 		switch x.pick(3) {
 		case 0:
